@@ -1,24 +1,43 @@
 (* C05 - whole-movie assembly links every member to exactly its own resources. Statements only;
    proofs in Proofs/DirFacts.v.  The model (coq/Model/Dir.v) composes the chunk models of the other
    properties; the Lingo decompiler is a parameter. *)
-From Coq Require Import List ZArith Bool.
+From Coq Require Import List ZArith Bool String.
 From Coq.Strings Require Import Byte.
-From DRX Require Import Py.PyBytes Py.PyStr Model.Riff Model.Index Proofs.IndexFacts Model.Dir Proofs.DirFacts.
+From DRX Require Import Py.PyBytes Py.PyStr Py.Layout Model.Riff Model.Index Proofs.IndexFacts Model.Vwsc Model.Cast Model.Bitd Model.Dir Proofs.DirFacts.
 Import ListNotations.
 Open Scope Z_scope.
+Local Notation length := List.length (only parsing).
 
-(* one cast entry per cast-table slot, in order; a slot holding 0 is an empty entry *)
-Theorem C05_one_entry_per_slot : forall chunks off rs fontmap key cas cast out,
-  cast_loop chunks off rs fontmap key cas cast = Ok out -> length out = (length cast + length cas)%nat.
+(* one cast entry per cast-table slot, in order; a slot holding 0 is an empty entry (first pass: the cast loop; pd: the
+   bitmaps registered for the second pass) *)
+Theorem C05_one_entry_per_slot : forall chunks off rs fontmap key cas cast pd out pd',
+  cast_loop chunks off rs fontmap key cas cast pd = Ok (out, pd') -> length out = (length cast + length cas)%nat.
 Proof. exact cast_loop_length. Qed.
-Theorem C05_empty_slot : forall chunks off rs fontmap key cas1 cas2 out,
-  cast_loop chunks off rs fontmap key (cas1 ++ 0 :: cas2) [] = Ok out -> nth_error out (length cas1) = Some None.
+Theorem C05_empty_slot : forall chunks off rs fontmap key cas1 cas2 out pd',
+  cast_loop chunks off rs fontmap key (cas1 ++ 0 :: cas2) [] [] = Ok (out, pd') -> nth_error out (length cas1) = Some None.
 Proof. exact empty_slot_is_empty. Qed.
+(* second pass (since the repair of C05-forward-palette): the bitmaps are decoded once the whole cast is known; the
+   pass keeps the slots and the empty entries, changes nothing but 'bitmap', and a bitmap is decoded with the palette
+   of the member it designates wherever that member stands - before or after it *)
+Theorem C05_bitmap_pass_slots : forall pd cast out, bitmap_pass cast pd = Ok out -> length out = length cast.
+Proof. exact bitmap_pass_length. Qed.
+Theorem C05_bitmap_pass_empty : forall pd cast out k, bitmap_pass cast pd = Ok out -> nth_error cast k = Some None -> nth_error out k = Some None.
+Proof. exact bitmap_pass_empty. Qed.
+Theorem C05_decode_changes_bitmap_only : forall cast m pid data m', decode_bitmap cast m pid data = Ok m' ->
+  m_cast m' = m_cast m /\ m_text m' = m_text m /\ m_sound m' = m_sound m /\ m_palette m' = m_palette m.
+Proof. exact decode_bitmap_keeps. Qed.
+Theorem C05_bitmap_palette_of_designated_member : forall cast m pid data m' pm c,
+  decode_bitmap cast m pid data = Ok m' -> pid > 0 -> index cast (pid - 1) = Some (Some pm) -> m_palette pm = Some c ->
+  exists h w depth pw ph ptxt bmp,
+    dict_Z (m_cast m) (B "height"%string) = Ok h /\ dict_Z (m_cast m) (B "width"%string) = Ok w /\ dict_Z (m_cast m) (B "depth"%string) = Ok depth /\
+    dict_Z (m_cast m) (B "w_padding"%string) = Ok pw /\ dict_Z (m_cast m) (B "h_padding"%string) = Ok ph /\
+    Bitd.bitd2bmp w h depth pw ph ptxt c data = Ok bmp /\ m_bitmap m' = Some bmp.
+Proof. exact bitmap_palette_of_designated_member. Qed.
 
 (* frame: the cast is assembled from each member's own key links; links of other owners have no influence *)
-Theorem C05_own_links_only : forall chunks off rs fontmap key1 key2 cas cast,
+Theorem C05_own_links_only : forall chunks off rs fontmap key1 key2 cas cast pd,
   (forall ci, In ci cas -> key_refs key1 ci = key_refs key2 ci) ->
-  cast_loop chunks off rs fontmap key1 cas cast = cast_loop chunks off rs fontmap key2 cas cast.
+  cast_loop chunks off rs fontmap key1 cas cast pd = cast_loop chunks off rs fontmap key2 cas cast pd.
 Proof. exact cast_depends_on_own_links. Qed.
 Theorem C05_links_of_owner : forall es owner,
   key_refs (group es) owner = map ref_of (filter (fun e => linked e && (k_owner e =? owner)) es).
@@ -43,3 +62,7 @@ Print Assumptions C05_links_of_owner.
 Print Assumptions C05_script_set_same.
 Print Assumptions C05_script_set_other.
 Print Assumptions C05_byte_order_factored.
+Print Assumptions C05_bitmap_pass_slots.
+Print Assumptions C05_bitmap_pass_empty.
+Print Assumptions C05_decode_changes_bitmap_only.
+Print Assumptions C05_bitmap_palette_of_designated_member.
